@@ -110,7 +110,28 @@ type FullC struct {
 	Plain    string      `validate:"omitempty,max=2"`
 }
 
+// FullV has a Validate() method of its own (interface strategy, and WithRunAll together with tags).
+type FullV struct {
+	Email string `json:"email" validate:"required,email"`
+	Name  string `json:"name" validate:"required,min=3"`
+	Age   int    `json:"age" validate:"min=1,max=5"`
+	NErr  int    `json:"nerr"`
+}
+
+// Validate returns NErr errors, deliberately not in sorted order.
+func (f *FullV) Validate() error {
+	if f.NErr <= 0 {
+		return nil
+	}
+	var e validation.Error
+	for i := f.NErr; i > 0; i-- {
+		e.Add("_c"+strconv.Itoa(i%3)+"_", "custom.k"+strconv.Itoa(i), "custom rule "+strconv.Itoa(i), nil)
+	}
+	return &e
+}
+
 var namedTypes = map[string]reflect.Type{
+	"FullV": reflect.TypeOf(FullV{}),
 	"FullA": reflect.TypeOf(FullA{}),
 	"FullB": reflect.TypeOf(FullB{}),
 	"FullC": reflect.TypeOf(FullC{}),
@@ -163,7 +184,7 @@ type caseT struct {
 	Body      string
 	T         *TypeT `json:",omitempty"` // generated type (partial mode, and full mode when Named == "")
 	Named     string `json:",omitempty"` // compiled type
-	Mode      int    // 0 partial, 1 full
+	Mode      int    // 0 partial, 1 full (tags), 2 all strategies (WithRunAll), 3 interface strategy only
 	MaxErrors int
 	MaxFields int
 	Redact    []string // exact paths the redactor covers
@@ -436,6 +457,17 @@ func genCase(r *hx.Rand, tier string) caseT {
 		t := describe(namedTypes[c.Named])
 		b, _ := json.Marshal(genObject(r, t, 0))
 		c.Body = string(b)
+	case 3: // the type's own Validate() method: alone, or together with the tags (WithRunAll)
+		if r.Chance(1, 2) {
+			c.Mode = hx.Pick(r, []int{2, 2, 3})
+			c.Named = "FullV"
+			o := genObject(r, describe(namedTypes[c.Named]), 0)
+			o = append(o, kv{"nerr", r.Range(0, 4)})
+			b, _ := json.Marshal(o)
+			c.Body = string(b)
+			break
+		}
+		fallthrough
 	case 2: // full mode on a generated (anonymous) struct type
 		c.Mode = 1
 		c.T = genType(r, 0)
@@ -817,7 +849,12 @@ func observe(c *caseT, rt reflect.Type, secrets []string) (o obsT) {
 	ptr := reflect.New(rt)
 	_ = json.Unmarshal(body, ptr.Interface())
 	var opts []validation.Option
-	if !c.Auto {
+	switch {
+	case c.Mode == 2:
+		opts = append(opts, validation.WithRunAll(true))
+	case c.Mode == 3:
+		opts = append(opts, validation.WithStrategy(validation.StrategyInterface))
+	case !c.Auto:
 		opts = append(opts, validation.WithStrategy(validation.StrategyTags))
 	}
 	if c.MaxErrors > 0 {
@@ -1047,7 +1084,7 @@ func emit(id string, c caseT, st *hx.Stats) string {
 		}
 	}
 	var full []fullT
-	if c.Mode == 1 {
+	if c.Mode == 1 || c.Mode == 2 {
 		var ok bool
 		full, ok = fullErrs(ptr.Interface(), rt)
 		if !ok {
@@ -1080,6 +1117,23 @@ func emit(id string, c caseT, st *hx.Stats) string {
 	for _, f := range full {
 		l.Str(f.path).Str(f.apath).Str(f.v.tag).Strs(f.v.shows)
 	}
+	// what the type's own Validate() returns (user code: a parameter)
+	var iface [][2]string
+	if c.Mode >= 2 {
+		if vi, ok := ptr.Interface().(interface{ Validate() error }); ok {
+			var ve *validation.Error
+			if err := vi.Validate(); err != nil && errors.As(err, &ve) {
+				for _, f := range ve.Fields {
+					iface = append(iface, [2]string{f.Path, f.Code})
+				}
+			}
+		}
+		violations += len(iface)
+	}
+	l.Tok("I").Nat(len(iface))
+	for _, f := range iface {
+		l.Str(f[0]).Str(f[1])
+	}
 	in := l.String()
 
 	secrets := secretsOf(root, red)
@@ -1106,7 +1160,7 @@ func emit(id string, c caseT, st *hx.Stats) string {
 	if st != nil {
 		low := hasLowSibling(data)
 		st.Case(in[len(id):], low || violations >= 2)
-		st.Count("mode_" + []string{"partial", "full"}[c.Mode])
+		st.Count("mode_" + []string{"partial", "full", "runall", "interface"}[c.Mode])
 		st.Count("obs_" + o.kind)
 		if low {
 			st.Count("low_sibling_next_to_nested")
@@ -1210,8 +1264,10 @@ func fixedCases() []caseT {
 		{Body: `{"a":[[{"b":1}]]}`, T: userT},
 		{Body: `{"email":"x","pass_word":"abcdefg","age":9,"user":{"name":"ab","secret":"s3cr3t"}}`, Named: "FullA", Mode: 1, Redact: []string{"pass_word", "user.secret"}},
 		{Body: `{"email":"x","pass_word":"abcdefg","age":9}`, Named: "FullA", Mode: 1, MaxErrors: 2},
-		{Body: `{"userName":"abc","Owner":{"name":"abc"},"kidsList":[{"name":"abc"},{"name":"abc","secret":"q1_hunter2"}]}`, Named: "FullC", Mode: 1, Redact: []string{"kidsList.1.secret"}},                               // K05f
-		{Body: `{"userName":"ab","apiKey":"q2_short","Owner":{"name":"abc"},"rows":[["a"]],"kidsList":[{"name":"abc"}]}`, Named: "FullC", Mode: 1, Redact: []string{"apiKey", "rows.0.0"}},                                 // K05e
+		{Body: `{"userName":"abc","Owner":{"name":"abc"},"kidsList":[{"name":"abc"},{"name":"abc","secret":"q1_hunter2"}]}`, Named: "FullC", Mode: 1, Redact: []string{"kidsList.1.secret"}}, // K05f
+		{Body: `{"userName":"ab","apiKey":"q2_short","Owner":{"name":"abc"},"rows":[["a"]],"kidsList":[{"name":"abc"}]}`, Named: "FullC", Mode: 1, Redact: []string{"apiKey", "rows.0.0"}},   // K05e
+		{Body: `{"email":"x","age":9,"nerr":2}`, Named: "FullV", Mode: 2, MaxErrors: 3},                                                                                                      // K05g
+		{Body: `{"email":"x","age":9,"nerr":4}`, Named: "FullV", Mode: 3, MaxErrors: 2},
 		{Body: `{"1":"abc","2":{"3":"x"}}`, T: &TypeT{Fields: []FieldT{{JSON: "1", Kind: "string", Tag: "email"}, {JSON: "2", Kind: "struct", Sub: &TypeT{Fields: []FieldT{{JSON: "3", Kind: "string", Tag: "min=2"}}}}}}}, // K05d
 	}
 }
